@@ -70,6 +70,11 @@ type castObj struct {
 	stream     int
 	salt       uint64
 	yieldEvery uint64
+	// bounded: the object is a slab that does not contain the camera; primary rays
+	// that miss its bounding box hit nothing (a renderer may cull by the bounds)
+	bounded    bool
+	bmin, bmax model3d.Coord3D
+	missed     int
 
 	mu      simsched.Mu
 	hist    [][]sample
@@ -78,8 +83,40 @@ type castObj struct {
 	other   int
 }
 
-func (o *castObj) Min() model3d.Coord3D { return model3d.XYZ(-10, -10, -10) }
-func (o *castObj) Max() model3d.Coord3D { return model3d.XYZ(10, 10, 10) }
+func (o *castObj) Min() model3d.Coord3D {
+	if o.bounded {
+		return o.bmin
+	}
+	return model3d.XYZ(-10, -10, -10)
+}
+func (o *castObj) Max() model3d.Coord3D {
+	if o.bounded {
+		return o.bmax
+	}
+	return model3d.XYZ(10, 10, 10)
+}
+
+// hitsBounds: does the ray origin + t*dir, t > 0, pass through the bounding box?
+// margin > 0 shrinks the box (definitely inside), margin < 0 grows it.
+func (o *castObj) hitsBounds(origin, dir model3d.Coord3D, margin float64) bool {
+	tmin, tmax := 0.0, math.Inf(1)
+	oa, da, lo, hi := origin.Array(), dir.Array(), o.bmin.Array(), o.bmax.Array()
+	for i := 0; i < 3; i++ {
+		l, h := lo[i]+margin, hi[i]-margin
+		if da[i] == 0 {
+			if oa[i] < l || oa[i] > h {
+				return false
+			}
+			continue
+		}
+		t1, t2 := (l-oa[i])/da[i], (h-oa[i])/da[i]
+		if t1 > t2 {
+			t1, t2 = t2, t1
+		}
+		tmin, tmax = math.Max(tmin, t1), math.Min(tmax, t2)
+	}
+	return tmin <= tmax && tmax > 0
+}
 
 // value is the radiance of the j-th sample of pixel p: a pure function, so what
 // a pixel sees does not depend on which worker renders it.
@@ -181,6 +218,10 @@ func (o *castObj) Cast(r *model3d.Ray) (model3d.RayCollision, render3d.Material,
 		o.note(true)
 		return model3d.RayCollision{}, nil, false
 	}
+	if o.bounded && !o.hitsBounds(r.Origin, r.Direction, 0) {
+		o.note(false)
+		return model3d.RayCollision{}, nil, false
+	}
 	v, j := o.record(p)
 	if o.yieldEvery != 0 && choice.Derive(o.salt, fmt.Sprint("y", p, j))%o.yieldEvery == 0 {
 		simsched.Yield("object.cast", p)
@@ -224,6 +265,21 @@ func RunCase(t *testing.T, c *Case, work, sched *choice.Source, st *Stats) (fs [
 	// below the minimum: early stopping is configured but can never fire
 	if work.Chance(1, 6) {
 		minSamples = numSamples + 1 + work.Intn(100)
+	}
+	// a bounded scene (only without antialiasing, where rays are attributed exactly):
+	// a floor slab under the camera or a wall beside it - the box does not contain
+	// the camera but reaches behind the camera plane
+	if aa == 0 && work.Chance(1, 5) {
+		obj.bounded = true
+		switch work.Intn(3) {
+		case 0:
+			obj.bmin, obj.bmax = model3d.XYZ(-50, -50, -6), model3d.XYZ(50, 50, -0.5-work.Float())
+		case 1:
+			obj.bmin, obj.bmax = model3d.XYZ(2+work.Float(), -50, -50), model3d.XYZ(9, 50, 50)
+		default:
+			obj.bmin, obj.bmax = model3d.XYZ(-9, -3+work.Float(), -2), model3d.XYZ(0.1, 30, 0.3)
+		}
+		st.probe("bounded scene (slab not containing the camera)")
 	}
 	// deep sampling on a tiny image: hundreds to thousands of samples per pixel,
 	// so that anything the estimator does per batch of samples is crossed
@@ -319,6 +375,21 @@ func RunCase(t *testing.T, c *Case, work, sched *choice.Source, st *Stats) (fs [
 	for p := 0; p < w*h; p++ {
 		hp := obj.hist[p]
 		st.Samples += len(hp)
+		if obj.bounded {
+			d := caster(float64(p%w), float64(p/w))
+			in, out := obj.hitsBounds(cam.Origin, d, 1e-9), !obj.hitsBounds(cam.Origin, d, -1e-9)
+			if !in && !out {
+				continue // the ray grazes the box: either answer is right
+			}
+			if out {
+				// nothing to hit: no sample may be attributed and the pixel is black
+				if c := img.Data[p]; len(hp) != 0 || c.X != 0 || c.Y != 0 || c.Z != 0 {
+					fs = append(fs, Finding{"pixel-outside-bounds", fmt.Sprintf("%s: pixel %d looks past the object's bounding box but has %d samples and value %v", st.Desc, p, len(hp), c)})
+					return
+				}
+				continue
+			}
+		}
 		if len(hp) == 0 {
 			fs = append(fs, Finding{"pixel-never-rendered", fmt.Sprintf("%s: pixel %d (of %d) received no sample", st.Desc, p, w*h)})
 			return
